@@ -176,6 +176,9 @@ func runC01(e *sim.Env) {
 		c := w.NewSioClient(i, "/", world.ClientOpts{Transports: world.Transports(p.C("tr")), NoReconnection: true, UpgradeTimeout: 20 * time.Minute}, nil)
 		registerAll(c.Socket, 1, int64(i))
 		clients[i] = c
+		// an application that emits as soon as it is connected: delivery is not asserted (the server
+		// may not have registered handlers yet) but it must never cost the connection
+		c.Socket.OnConnect(func() { c.Socket.Emit("early", i) })
 		c.Socket.Connect()
 	}
 	// Traffic starts once every client is connected and every server socket has its handlers:
